@@ -100,6 +100,26 @@ class Lattice:
         return near(lon, self.ex) | near(lat, self.ey)
 
 
+class UnionLattice(Lattice):
+    """Several legitimate readings of the same region (e.g. decimal lattice lines vs. the float origins that are an ulp
+    off them): an observation is admissible if it is admissible under any reading; a violation contradicts all of them."""
+
+    def __init__(self, models):
+        m = models[0]
+        Lattice.__init__(self, m.ex, m.ey, m.ci)
+        self.models = models
+
+    def admissible(self, lon, lat):
+        primary, alts, inband = self.models[0].admissible(lon, lat)
+        alts = list(alts)
+        for m in self.models[1:]:
+            p2, a2, b2 = m.admissible(lon, lat)
+            alts.append(p2)
+            alts.extend(a2)
+            inband = inband | b2 | (p2 != primary)
+        return primary, alts, inband
+
+
 def axis_candidates(e, rng, max_edges=24):
     """Probe coordinates along one axis: edges +-ulps, centres, beyond the box on both sides."""
     e = numpy.asarray(e, dtype=float)
